@@ -8,20 +8,19 @@ PROVED obligations (counted)
         granularity x dtype, weight likewise, compute precision, explicit_dequantize) with OPAQUE integers (num_bits, block_size): a run in which no integer
         is inspected decides the cell for all integers -> backend exhaustive-native-opaque.  NONE row = ValueError.  One obligation per shipped policy /
         recipe source: no config it admits raises, and it follows the table (backend exhaustive-native: the finite set of shipped configs).
-  (ii)  pyvc (unbounded, loop invariants; contracts/c03_lists.py): _tensor_indices_with_dtype, _split_tensors_by_indices, _materialize_ignored_tensors,
-        _merge_materialized_tensors (the latter under the preconditions of its single call site, listed in the assumptions).
+  (ii)  pyvc (unbounded, loop invariants; contracts/c03_lists.py): _tensor_indices_with_dtype, _add_non_match_tensors_to_ignored_lists (sets as membership
+        arrays; its callee by contract), _split_tensors_by_indices, _materialize_ignored_tensors, _merge_materialized_tensors (the latter under the preconditions
+        of its single call site, listed in the assumptions).
   (iii) pyvc: ParamsGenerator._get_params_for_no_quant_op (every operand != -1, inputs then outputs, [NO_QUANTIZE], no parameters);
         AST/dataflow obligations on generate_quantization_parameters (exact checks in `routing_ast`).
   (v)   quant_params_to_tflite_type / nonlinear_quant_params_to_tflite_type tables and the insert_quant / insert_dequant 'dtypes' postconditions
         (props.graphcommon, pyvc).
   (vi)  AST frame obligation on quantize_tensor (exact checks in `frame_ast`) + the finite fact that the real TransformationPerformer never applies NO_QUANTIZE.
 BOUNDED stand-ins (rep.add_bounded, never counted; a failing input is additionally emitted as a refuted obligation with its native replay)
-  materialize_standard_op as a whole (synthetic ops), _add_non_match_tensors_to_ignored_lists (sets: outside the pyvc subset), native cross-checks of the
-  pyvc contracts, generate_quantization_parameters routing, _quant_params_to_transformation_insts (dtype algebra),
+  materialize_standard_op as a whole (synthetic ops), native cross-checks of the pyvc contracts, generate_quantization_parameters routing, _quant_params_to_transformation_insts (dtype algebra),
   quantize_tensor frame, naive_min_max_quantize.materialize_fc_conv (bias / weight clauses), float_casting materialize functions.  Scopes are stated at each call.
 Known findings: rep.finding_for / rep.known_finding (none listed for C03).  replay(payload) re-executes a recorded failing input natively."""
 import ast, json, time
-import z3
 from vlib import core
 
 LEVEL = 'proof'
@@ -128,7 +127,9 @@ def admitted(rep, m, fns, emit=True):
             ob = core.Ob(oid, fns['gtt'], 'exhaustive-native', core.REFUTED, time.time() - t0, detail=f'{len(bad)} of {n}: {f}', clause=clause); ob.replay = dict(confirmed=bool(fl), inputs=dict(family='admitted', case=c), observed=obs)
         else: ob = core.Ob(oid, fns['gtt'], 'exhaustive-native', core.PROVED, time.time() - t0, clause=clause)
         status[oid] = ob.status
-        if emit: rep.add(ob); rep.cover(f'admitted configs: {src} non-empty', len(items) > 0)
+        if emit:
+            rep.add(ob)
+            if src.startswith('default_policy'): rep.cover(f'admitted configs: {src} non-empty', len(items) > 0)
     return status
 
 # ------------------------------------------------------------------------------------------------ (iii) routing: obligations on the real AST
@@ -268,7 +269,7 @@ def ast_obligations(rep, fn, checks, family, emit=True):
 def _search(i):
     if i: return None
     from replay import c03_native as N
-    fam, gen = {'tiwd': ('tiwd', N.tiwd_cases), 'split': ('split', N.split_cases), 'merge': ('merge', N.merge_cases), 'noquant': ('noquant', N.noquant_cases),
+    fam, gen = {'tiwd': ('tiwd', N.tiwd_cases), 'anm': ('ignored-lists', N.helper_cases_ignored_lists), 'split': ('split', N.split_cases), 'merge': ('merge', N.merge_cases), 'noquant': ('noquant', N.noquant_cases),
                 'ignored': ('materialize', lambda: N.materialize_cases(N.COMBOS[:1]))}[_G['search']]
     m = N.load()
     for c in gen():
@@ -276,11 +277,11 @@ def _search(i):
         if fl: return dict(confirmed=True, inputs=dict(family=fam, case=c), observed=obs, note='failing input found by the native stand-in of the same helper')
     return None
 
-def pyvc_helpers(rep, emit=True, src=None, which=('tiwd', 'split', 'ignored', 'merge', 'noquant')):
+def pyvc_helpers(rep, emit=True, src=None, which=('tiwd', 'anm', 'split', 'ignored', 'merge', 'noquant')):
     """-> list of (label, status) ; with src (a mutated file text) nothing is added to the report"""
     from contracts import c03_lists as L
     from vlib import pyvc
-    table = {'tiwd': (MMU, '_tensor_indices_with_dtype', L.TensorIndicesWithDtype), 'split': (MMU, '_split_tensors_by_indices', L.SplitTensorsByIndices),
+    table = {'tiwd': (MMU, '_tensor_indices_with_dtype', L.TensorIndicesWithDtype), 'anm': (MMU, '_add_non_match_tensors_to_ignored_lists', L.AddNonMatch), 'split': (MMU, '_split_tensors_by_indices', L.SplitTensorsByIndices),
              'ignored': (MMU, '_materialize_ignored_tensors', L.MaterializeIgnored), 'merge': (MMU, '_merge_materialized_tensors', L.MergeMaterialized),
              'noquant': (PG, 'ParamsGenerator._get_params_for_no_quant_op', L.NoQuantOp)}
     out = []; found = {}
@@ -326,7 +327,8 @@ def canaries(rep, m, fns, proved):
         ('_tensor_indices_with_dtype: dtype test dropped (every operand kept)', 'mmu', ('    if tensor.type in tensor_dtype_codes:\n', '    if True:\n'),
          [('pyvc _tensor_indices_with_dtype', lambda mm, s: [l for l, st in pyvc_helpers(rep, False, s, ('tiwd',)) if st != 'proved']), ('materialize_standard_op stand-in', mat_check)]),
         ('_add_non_match_tensors_to_ignored_lists: non-float32 inputs no longer added to the ignore list', 'mmu', ('  inputs_to_ignore = list(input_indices - inputs_to_keep)', '  inputs_to_ignore = list(inputs_to_ignore)'),
-         [('ignored-lists stand-in', lambda mm: first_failure(mm, 'ignored-lists', N.helper_cases_ignored_lists())), ('materialize_standard_op stand-in', mat_check)]),
+         [('pyvc _add_non_match_tensors_to_ignored_lists', lambda mm, s: [l for l, st in pyvc_helpers(rep, False, s, ('anm',)) if st != 'proved'][:4]),
+          ('ignored-lists stand-in', lambda mm: first_failure(mm, 'ignored-lists', N.helper_cases_ignored_lists())), ('materialize_standard_op stand-in', mat_check)]),
         ('_split_tensors_by_indices: -1 operands no longer skipped', 'mmu', ('    if tensor_index == -1:\n      continue\n    if i in indices:', '    if False:\n      continue\n    if i in indices:'),
          [('pyvc _split_tensors_by_indices', lambda mm, s: [l for l, st in pyvc_helpers(rep, False, s, ('split',)) if st != 'proved'][:4])]),
         ('_merge_materialized_tensors: output start index ignores the ignored inputs', 'mmu', ('  output_start_idx = num_inputs - len(inputs_to_ignore)', '  output_start_idx = num_inputs'),
@@ -369,13 +371,13 @@ def canaries(rep, m, fns, proved):
 # ------------------------------------------------------------------------------------------------ run
 def run(rep):
     from props import graphcommon as gc
-    t_start = time.time()
+    t_start = time.time(); phases = {}
+    def mark(name, t0): phases[name] = round(time.time() - t0, 1)
     # ---- pyvc first (fork pools before TensorFlow is loaded into this process)
-    pyvc_helpers(rep)
-    gc.dtype_tables(rep, P)
-    gc.insert_obligations(rep, P)
+    t0 = time.time(); pyvc_helpers(rep); mark('pyvc list helpers + no-quant op', t0)
+    t0 = time.time(); gc.dtype_tables(rep, P); gc.insert_obligations(rep, P); mark('dtype tables + insert_quant / insert_dequant (graphcommon)', t0)
     from replay import c03_native as N
-    m = N.load()
+    t0 = time.time(); m = N.load(); mark('loading the real modules', t0)
     F = lambda rel, q: rep.fn(core.Fn(rel, q))
     fns = dict(gtt=F(MMU, 'get_tensor_transformations'), mso=F(MMU, 'materialize_standard_op'), anm=F(MMU, '_add_non_match_tensors_to_ignored_lists'), mit=F(MMU, '_materialize_ignored_tensors'),
                mmt=F(MMU, '_merge_materialized_tensors'), tiwd=F(MMU, '_tensor_indices_with_dtype'), split=F(MMU, '_split_tensors_by_indices'),
@@ -405,7 +407,7 @@ def run(rep):
             note='ValueError / KeyError (single-tensor constraints, missing calibration entry of a constant under SAME_AS_INPUT_SCALE) count as refusals, not as malformed results. Observation (C05 territory, not a C03 clause): under SAME_AS_OUTPUT_SCALE a float constant input '
                  'receives the output parameters WITHOUT quantized data (note:constant-without-quantized-data).')
     for fam, gen, fn, name, scope, clause in (
-        ('ignored-lists', N.helper_cases_ignored_lists, fns['anm'], 'min_max_quantize_utils._add_non_match_tensors_to_ignored_lists (uses sets: outside the pyvc subset)', '0-3 inputs over {-1, float, int32, float} tensors, 0-2 outputs, every subset of positions already ignored; exhaustive',
+        ('ignored-lists', N.helper_cases_ignored_lists, fns['anm'], 'min_max_quantize_utils._add_non_match_tensors_to_ignored_lists (native cross-check of the pyvc contract)', '0-3 inputs over {-1, float, int32, float} tensors, 0-2 outputs, every subset of positions already ignored; exhaustive',
          'returned sets = positions whose tensor is not float32 plus the already ignored positions, without duplicates (positions of -1 operands are irrelevant downstream)'),
         ('merge', N.merge_cases, fns['mmt'], 'min_max_quantize_utils._merge_materialized_tensors (native cross-check of the pyvc contract)', '0-3 present inputs, 0-2 present outputs, every subset of ignored positions, with and without -1 padding operands; exhaustive',
          'ignored and non-ignored entries are interleaved back into operand order'),
@@ -438,9 +440,11 @@ def run(rep):
     rep.cover('dtype algebra: requantize, DQ/no-quant and DQ/Q-elimination branches are all reached by one case',
               names == [('QUANTIZE_TENSOR', [1]), ('ADD_QUANTIZE', [1]), ('ADD_DEQUANTIZE', [-1, 2]), ('QUANTIZE_TENSOR', [3])])
     rep.cover('materialize stand-in: most cases return a result (are not refusals)', mstats.get('returned', 0) * 2 > mn)
+    mark('native families (mode table, AST obligations, stand-ins)', t_start + sum(phases.values()))
     # ---- canaries
     proved = {o.id for o in rep.obs if o.status == core.PROVED}
-    canaries(rep, m, fns, proved)
+    t0 = time.time(); canaries(rep, m, fns, proved); mark('canaries', t0)
+    rep.extra['phase_seconds'] = phases
     # ---- trusted base / assumptions
     rep.trust('CPython executes the real functions; dataclasses, enum and numpy are the real library code; flatbuffer object-API classes are plain attribute bags')
     rep.trust('parametricity: an execution of get_tensor_transformations in which no opaque integer is inspected is the same for every integer value (the Opaque class raises on every inspection)')
@@ -455,7 +459,7 @@ def run(rep):
                '_materialize_standard_op_* returning one entry per non-ignored tensor (bounded stand-in only)')
     rep.assume('NOT covered by a discharged obligation: see coverage.not_covered')
     rep.extra['not_covered'] = [
-        'materialize_standard_op as a composition (its helpers _tensor_indices_with_dtype, _split_tensors_by_indices, _materialize_ignored_tensors, _merge_materialized_tensors are proved; the glue, _add_non_match_tensors_to_ignored_lists (sets) and _materialize_standard_op_{no_constraint, same_as_input_scale, same_as_output_scale} are bounded stand-ins only)',
+        'materialize_standard_op as a composition (its helpers _tensor_indices_with_dtype, _add_non_match_tensors_to_ignored_lists, _split_tensors_by_indices, _materialize_ignored_tensors, _merge_materialized_tensors are proved; the glue between them and _materialize_standard_op_{no_constraint, same_as_input_scale, same_as_output_scale} / _get_tensor_transformation_params_wrapper are bounded stand-ins only)',
         'the per-operator materialize functions of naive_min_max_quantize other than materialize_fc_conv (bounded) - their ignore lists / constraints are not checked against the TFLite operand roles',
         'float_casting.materialize_* (fp16 weight-only): bounded stand-in only; the fp16 dtype table (nonlinear_quant_params_to_tflite_type) and the insert_dequant postcondition are proved',
         'recipe resolution to no_quantize (unmatched scope, unsupported op / config): C11 / C13',
